@@ -423,7 +423,13 @@ pub fn check(a: &CheckArgs) -> i32 {
     let max_minimise = 12;
     // overall triage budget: afterwards representatives are reported as found (not minimised)
     let triage_deadline = Instant::now() + a.minimise_budget * 4;
+    let max_reported = 25;
+    let mut not_reported = 0u64;
     for (n, f) in founds.iter().enumerate() {
+        if reported.len() >= max_reported {
+            not_reported += 1;
+            continue;
+        }
         if known_sigs.contains(&f.violation.signature()) {
             *suppressed.entry(f.violation.signature()).or_insert(0) += f.count;
             continue;
@@ -524,6 +530,10 @@ pub fn check(a: &CheckArgs) -> i32 {
             vf.message
         );
         reported.insert(sig, (path, vf, shipped));
+    }
+
+    if not_reported > 0 {
+        println!("note: {not_reported} further raw signatures were found but not reported individually (limit {max_reported} per check run)");
     }
 
     // 5b. fidelity tier (never gating)
